@@ -195,7 +195,64 @@ def check_big(case, ctx: Ctx):
     ctx.record(case, True, ["big"], n_eval=1)
 
 
-CHECKS = {"unordered": check_unordered, "big": check_big}
+
+
+# ---------------------------------------------------------------------------
+# the same through `cooler load` (text chunks of --chunksize lines, --mergebuf, --max-merge, --temp-dir)
+# ---------------------------------------------------------------------------
+
+def check_cli(case, ctx: Ctx):
+    import h5py
+
+    import cooler
+
+    from ..cliutil import run_cli
+
+    bt, symmetric = case["bt"], case["symmetric"]
+    recs = [r for c in case["chunks"] for r in c]
+    keys = [(r[0], r[1]) for r in recs]
+    # a pixel repeated inside one reader chunk is rejected by design: one line per chunk when anything repeats
+    chunksize = 1 if len(set(keys)) != len(keys) else [1, 2, 3, 1000][case["order_seed"] % 4]
+    work = ctx.tmpdir()
+    try:
+        bed = os.path.join(work, "bins.bed")
+        with open(bed, "w") as f:
+            for c, s_, e in model.bins_rows(bt):
+                f.write(f"{c}\t{s_}\t{e}\n")
+        txt = os.path.join(work, "px.txt")
+        with open(txt, "w") as f:
+            for r in recs:
+                f.write(f"{r[0]}\t{r[1]}\t{r[2]}\n")
+        out = os.path.join(work, "out.cool")
+        args = ["load", "-f", "coo", bed, txt, out + case["dest"], "--chunksize", chunksize, "--mergebuf", case["mergebuf"],
+                "--max-merge", max(case["max_merge"], 2)]
+        tdir = work
+        if case["temp"] == "explicit":
+            tdir = os.path.join(work, "tmp")
+            os.makedirs(tdir)
+            args += ["--temp-dir", tdir]
+        if not symmetric:
+            args.append("-N")
+        before = sorted(os.listdir(tdir))
+        rc, _, exc = run_cli(args)
+        check(rc == 0 and exc is None, f"cooler load --chunksize {chunksize} --mergebuf {case['mergebuf']} failed: exit {rc} {exc!r}")
+        after = sorted(x for x in os.listdir(tdir) if x != "out.cool")
+        check(after == before, lambda: f"temporary files outlive a successful cooler load: {sorted(set(after) - set(before))}")
+        want = model.merge_rows([[r[:3] for r in c] for c in case["chunks"]], ("sum",))
+        clr = cooler.Cooler(out + case["dest"])
+        df = clr.pixels()[:]
+        got = [[a, b, c] for a, b, c in zip(df["bin1_id"].tolist(), df["bin2_id"].tolist(), df["count"].tolist())]
+        check(got == want, lambda: f"cooler load in chunks of {chunksize}: pixels {got[:6]} differ from the in-memory aggregation {want[:6]}")
+        with h5py.File(out, "r") as f:
+            probs = schema.validate(f["/g" if case["dest"] else "/"])
+        check(not probs, lambda: f"output violates the schema: {probs[:3]}")
+    finally:
+        ctx.clean(work)
+    nchunks = -(-len(recs) // chunksize) if recs else 0
+    ctx.record(case, nchunks >= 2 and len(set(keys)) != len(keys), ["cli-load", f"cli-chunks={min(nchunks, 5)}", "cli-temp=" + case["temp"]])
+
+
+CHECKS = {"cli": check_cli, "unordered": check_unordered, "big": check_big}
 
 
 def replay(ctx: Ctx, case):
@@ -212,6 +269,9 @@ def run(ctx: Ctx):
             ctx.add_violation(case, str(e))
             return
     if not run_given(ctx, "unordered", cases(), check_unordered, per_shard(ctx, 1100 if q else 36000), batch=50):
+        return
+    cli = cases().filter(lambda c: c["count_dtype"] == "int32").map(lambda c: dict(c, part="cli"))
+    if not run_given(ctx, "cli-load", cli, check_cli, per_shard(ctx, 160 if q else 4000), batch=20):
         return
     if not q:
         # larger tables and more chunks: more epochs per merge, more rows split across chunks
